@@ -225,7 +225,7 @@ func R12() Rule {
 			c.Unknown("R12", "floor/validate-sites", token.NoPos, "only %d validateConds call sites found", n)
 		}
 		// compose checks each source it reads against that source's conditions
-		fc := P.MustFunc(core.PkgGcsemu, "(*GcsEmu).finishCompose")
+		fc := funcOr(P, core.PkgGcsemu, "(*GcsEmu).finishCompose", "(*GcsEmu).handleGcsCompose")
 		nv := 0
 		srcChecked := false
 		for _, f := range P.Scope(fc, func(f *ssa.Function) bool { return f == validate }) {
